@@ -543,6 +543,44 @@ def definitely_nonnull(e, is_class=lambda name: name[:1].isupper()):
     return False
 
 
+def _unconditional_derefs(root):
+    """Access paths p such that evaluating `root` certainly evaluates `p.<attr>`
+    (not under a short-circuit operand, conditional expression, lambda or
+    comprehension)."""
+    out = set()
+
+    def rec(e, cond):
+        if isinstance(e, (ast.Lambda, ast.ListComp, ast.SetComp, ast.DictComp, ast.GeneratorExp, ast.FunctionDef, ast.ClassDef)):
+            return
+        if isinstance(e, ast.BoolOp):
+            rec(e.values[0], cond)
+            for v in e.values[1:]:
+                rec(v, True)
+            return
+        if isinstance(e, ast.IfExp):
+            rec(e.test, cond)
+            rec(e.body, True)
+            rec(e.orelse, True)
+            return
+        if isinstance(e, ast.Attribute) and isinstance(e.ctx, ast.Load) and not cond:
+            p = access_path(e.value)
+            if p:
+                out.add(p)
+        if isinstance(e, (ast.Assign, ast.AugAssign, ast.AnnAssign)):
+            # targets: x.f = v dereferences x
+            tg = e.targets if isinstance(e, ast.Assign) else [e.target]
+            for t in tg:
+                if isinstance(t, ast.Attribute) and not cond:
+                    p = access_path(t.value)
+                    if p:
+                        out.add(p)
+        for ch in ast.iter_child_nodes(e):
+            rec(ch, cond)
+
+    rec(root, False)
+    return out
+
+
 class Facts:
     """Forward must-analysis of atomic facts over a CFG.
 
@@ -559,8 +597,11 @@ class Facts:
         self._solve(init)
 
     # kill/gen of one node -------------------------------------------------
-    def _kills(self, n: Node):
-        """(assigned paths, attr names assigned by calls, paths/attrs mutated)"""
+    def _kills(self, n: Node, falsy=False):
+        """(assigned paths, attr names assigned by calls, paths/attrs mutated).
+        falsy=True: the node is a test whose value came out false; a call that
+        *is* the test then contributes only what it can write on a path that
+        returns a false value (call_info's 4th component)."""
         a = n.ast
         apaths = set()
         cattrs = set()
@@ -596,6 +637,18 @@ class Facts:
                 if self.call_info is not None:
                     info = self.call_info(c)
                     if info:
+                        if falsy and c is a and len(info) > 3 and info[3] is not None:
+                            cattrs |= info[3][0]
+                            for at in info[3][1]:
+                                mutated.add("*." + at)
+                            continue
+                        if len(info) > 4 and info[4]:
+                            # attrs only ever assigned definitely-non-None values by the callee
+                            for at in info[0]:
+                                cattrs.add(("nn:" + at) if at in info[4] else at)
+                            for at in info[1]:
+                                mutated.add("*." + at)
+                            continue
                         cattrs |= info[0]
                         for at in info[1]:
                             mutated.add("*." + at)
@@ -618,8 +671,16 @@ class Facts:
                     return True
             if cattrs:
                 comps = p.split(".")
-                if len(comps) > 1 and any(c in cattrs for c in comps[1:]):
-                    return True
+                if len(comps) > 1:
+                    for i, c in enumerate(comps[1:], 1):
+                        if c in cattrs:
+                            return True
+                        if ("nn:" + c) in cattrs:
+                            # re-assigned, but never to None: a non-None fact about
+                            # exactly this path survives, everything else dies
+                            if fact[0] == "nonnull" and fact[1] == p and i == len(comps) - 1:
+                                continue
+                            return True
         if mutated and fact[0] in ("nonempty", "empty", "lenge", "truthy", "falsy", "cond", "in", "notin"):
             for p in fps:
                 if p in mutated:
@@ -655,6 +716,16 @@ class Facts:
                 # alias: x = y  /  x = y.f  -> facts of the source carry over is
                 # handled in transfer (copy), here bind record:
                 out.add(("bind", p, unparse(v)))
+        if isinstance(a, ast.Expr) and isinstance(a.value, ast.Call) and isinstance(a.value.func, ast.Attribute) and a.value.func.attr in ("append", "add", "insert", "appendleft") and a.value.args:
+            p = access_path(a.value.func.value)
+            if p:
+                out.add(("nonempty", p))
+        if a is not None and n.kind in ("stmt", "test"):
+            # a dereference that did not raise proves its base non-None
+            droots = [a] if not isinstance(a, (ast.With, ast.AsyncWith)) else [i.context_expr for i in a.items]
+            for r in droots:
+                for x in _unconditional_derefs(r):
+                    out.add(("nonnull", x))
         if self.call_info is not None and a is not None and n.kind in ("stmt", "test"):
             roots = [a] if not isinstance(a, (ast.With, ast.AsyncWith)) else [i.context_expr for i in a.items]
             for r in roots:
@@ -665,13 +736,25 @@ class Facts:
                             out |= info[2]
         return out
 
-    def transfer(self, n: Node, facts: frozenset, exceptional=False):
-        apaths, cattrs, mutated = self._kills(n)
+    @staticmethod
+    def _gen_about_target(n, fact):
+        """Is this generated fact a statement about the assigned target's new value?"""
+        a = n.ast
+        if isinstance(a, (ast.Assign, ast.AnnAssign)):
+            tg = a.targets if isinstance(a, ast.Assign) else [a.target]
+            return any(access_path(t) == fact[1] for t in tg if isinstance(t, (ast.Name, ast.Attribute)))
+        return False
+
+    def transfer(self, n: Node, facts: frozenset, exceptional=False, falsy=False):
+        apaths, cattrs, mutated = self._kills(n, falsy)
         if apaths or cattrs or mutated:
             facts = frozenset(f for f in facts if not self._killed(f, apaths, cattrs, mutated))
         if exceptional:
             return facts
         g = self._gens(n)
+        if g and apaths:
+            # facts generated about a path the statement itself re-binds are stale
+            g = {f for f in g if f[0] == "bind" or not self._killed(f, apaths, set(), set()) or f[0] in ("null", "empty") or (f[0] in ("nonnull", "nonempty", "lenge") and self._gen_about_target(n, f))}
         if g:
             # copy facts through simple aliases: x = y
             a = n.ast
@@ -699,14 +782,31 @@ class Facts:
             out_norm = None
             out_exc = None
             for t, lab in n.succs:
+                if lab and lab[0] in ("T", "F") and n.kind == "test":
+                    p = access_path(n.ast) if isinstance(n.ast, (ast.Name, ast.Attribute)) else None
+                    if p is not None:
+                        if lab[0] == "F" and ("truthy", p) in base:
+                            continue
+                        if lab[0] == "T" and ("falsy", p) in base:
+                            continue
+                    if isinstance(n.ast, ast.Compare) and len(n.ast.ops) == 1 and isinstance(n.ast.ops[0], (ast.Is, ast.IsNot)) and isinstance(n.ast.comparators[0], ast.Constant) and n.ast.comparators[0].value is None:
+                        p = key_of(n.ast.left)
+                        isnone_edge = (lab[0] == "T") == isinstance(n.ast.ops[0], ast.Is)
+                        if isnone_edge and ("nonnull", p) in base:
+                            continue
+                        if not isnone_edge and ("null", p) in base:
+                            continue
                 if lab and lab[0] == "exc":
                     if out_exc is None:
                         out_exc = self.transfer(n, base, exceptional=True)
                     o = out_exc
                 else:
-                    if out_norm is None:
-                        out_norm = self.transfer(n, base)
-                    o = out_norm
+                    if lab and lab[0] == "F" and n.kind == "test" and isinstance(n.ast, ast.Call) and self.call_info is not None:
+                        o = self.transfer(n, base, falsy=True)
+                    else:
+                        if out_norm is None:
+                            out_norm = self.transfer(n, base)
+                        o = out_norm
                     if lab and lab[0] in ("T", "F"):
                         o = frozenset(o | derive(lab[1], lab[0] == "T"))
                     elif lab and lab[0] == "done":
